@@ -936,6 +936,8 @@ pub(crate) async fn prepare_request(
 
     let (operation_name, mut operation) = operation.map_err(|err| vec![err])?;
 
+    crate::validation::check_variable_values(registry, &operation.node, &request.variables)?;
+
     // remove skipped fields
     let variable_definitions = std::mem::take(&mut operation.node.variable_definitions);
     let variable_lookup = |name: &Name| {
